@@ -136,6 +136,32 @@ def gen_inputs(ctx):
             q = '"' + w + r2.choice(['{', '}', '{}', '{0}', '{c}', '{{']) + '"'
             b = _re.sub(r'(?<![\w"\'`#.:])' + w + r'(?![\w"\'`:(])', lambda m: q, b)
         jobs.append((b.replace('> ', r2.choice(['> ', '<> ', '<> ', '- '])), r2.random() < 0.3))
+    # value slots: short strings over the characters numbers, words and quotes are made of, written where the grammar
+    # expects a VALUE (a default, type arguments, a colour, an index type): whatever they are, the outcome is a database
+    # or a parse error
+    alpha = list('019.eE+-xn_') + ["'", '"', '`', '(', ')', ' ', '#', 't', 'r', 'u', 'l', 'f', 'a', 's']
+    slots = ['Table t {\n  c int [default: %s]\n}\n', 'Table t {\n  c int [default:%s, unique]\n}\n', 'Table t {\n  c varchar(%s)\n}\n',
+             'Table t [headercolor: #%s] {\n  c int\n}\n', 'Table t {\n  c int\n  indexes {\n    c [type: %s]\n  }\n}\n',
+             'Table t {\n  c int [default: %s] // x\n}\n']
+    vals = set()
+    if quick:
+        r3 = random.Random(f'{ctx.seed}:c08v')
+        numeric = list('019.eE+-')
+        for _ in range(450):
+            vals.add(''.join(r3.choice(numeric) for _ in range(r3.randint(1, 5))))
+        for _ in range(250):
+            vals.add(''.join(r3.choice(alpha) for _ in range(r3.randint(1, 4))))
+    else:
+        import itertools as _it
+        for n_ in range(1, 5):
+            for tup in _it.product('019.eE+-', repeat=n_):
+                vals.add(''.join(tup))
+        r3 = random.Random(f'{ctx.seed}:c08v')
+        for _ in range(6000):
+            vals.add(''.join(r3.choice(alpha) for _ in range(r3.randint(1, 5))))
+    for k, v in enumerate(sorted(vals)):
+        jobs.append((slots[0] % v, False))
+        jobs.append((slots[1 + k % (len(slots) - 1)] % v, k % 7 == 0))
     n = 5000 if quick else 120000
     for _ in range(n):
         k = rng.random()
